@@ -46,7 +46,8 @@ const (
 	GetError
 	GetNotFound
 	GetFuture
-	GetErrorOnGet // listing ok, fetching blobs fails
+	GetErrorOnGet    // listing ok, fetching blobs fails
+	GetNotFoundOnGet // listing ok, fetching blobs answers "blob: not found" (a lagging / pruned replica)
 )
 
 type SubmitCall struct {
@@ -233,6 +234,11 @@ func (c *DAClient) GetIDs(ctx context.Context, height uint64, ns []byte) (*cored
 			ids[i] = append(ids[i], 0xEE) // unknown id: Get fails
 		}
 	}
+	if ans == GetNotFoundOnGet {
+		for i := range ids {
+			ids[i] = append(ids[i], 0xEF) // Get answers ErrBlobNotFound
+		}
+	}
 	return &coreda.GetIDsResult{IDs: ids, Timestamp: time.Unix(int64(1_700_000_000+height), 0).UTC()}, nil
 }
 
@@ -243,6 +249,9 @@ func (c *DAClient) Get(ctx context.Context, ids []coreda.ID, ns []byte) ([]cored
 	defer d.mu.Unlock()
 	var out []coreda.Blob
 	for _, id := range ids {
+		if len(id) == 41 && id[40] == 0xEF {
+			return nil, coreda.ErrBlobNotFound
+		}
 		if len(id) != 40 {
 			return nil, errors.New("da: fetching blobs failed")
 		}
